@@ -22,7 +22,8 @@ MANIFEST = {
             "namespace in parse order, shuffled orders, random and dependency-closed subsets, repeated runs in the same interpreter "
             "interleaved with runs for other languages/namespaces and stropping configurations, with built-in templates of all four languages and with "
             "stress templates (heavy to_template_unique_name, blank lines at file start/end) under line post-processors; "
-            "whole-vs-subset is also driven through the CLI on pruned copies of the namespace.",
+            "whole-vs-subset is also driven through the CLI on pruned copies of the namespace."
+            " A fixed role-collision set (one spelling as namespace, type and attribute; spellings only some identifier kinds reserve) is generated for every single-type dependency closure in both orders; further histories: earlier generate_all() calls with other per-call options on the same generator objects, an earlier generation aborted by a template error in the middle of a line (fault injection through a user template), one post-processor list object shared with a generator of another language.",
     "note": "Namespace files (__init__.py, index.html, _namespace_) legitimately depend on the sibling set and are not compared. "
             "Sampled inputs; equality oracle needs no reference model.",
 }
